@@ -38,3 +38,7 @@ Lemma b_fast_del_index : forall lenb start_mod j, gen_fast_del_index lenb start_
 Proof. bridge. Qed.
 Lemma b_contig_length_column : gen_contig_length_column = contig_length_column.
 Proof. reflexivity. Qed.
+Lemma b_ci_offsets : forall sizes, gen_ci_offsets sizes = m_ci_offsets sizes.
+Proof. reflexivity. Qed.
+Lemma b_ci_shift : forall start offset, gen_ci_shift start offset = m_ci_shift start offset.
+Proof. reflexivity. Qed.
